@@ -249,6 +249,46 @@ pub fn scenarios(tier: Tier, which: &str) -> Vec<LineScn> {
 				});
 			}
 		}
+		if which == "C02" {
+			// late application of a monitor update: B's disk stops completing writes at some point, C's
+			// messages stop arriving before one of its commitment_signed / revoke_and_ack, B pays C itself
+			// (one more commitment for C, its update still in flight), C closes on chain and claims the
+			// forwarded HTLC there, and B crashes at any point of the on-chain resolution and restarts from
+			// what was durable (the in-flight updates are replayed onto a monitor that already saw the close)
+			v.push(LineScn {
+				name: format!("{}-abc-slowdisk-heldlink-cb-close-crash-b", n),
+				ct,
+				nodes: 3,
+				ops: vec![
+					Op::Send { from: 0, hops: vec![(1, 0), (2, 1)], amount_msat: 50_000_000, policy: ClaimPolicy::Hold },
+					Op::Send { from: 1, hops: vec![(2, 1)], amount_msat: 20_000_000, policy: ClaimPolicy::Hold },
+					Op::ForceClose { node: 2, chan: 1 },
+					Op::ClaimHeld { pay: 0 },
+				],
+				ops_first: false,
+				dev: Deviations {
+					reorder: None,
+					early_op: None,
+					complete_reorder: None,
+					hold_link: Some(1),
+					hold_link_only: Some((2, 1)),
+					hold_link_before_commit_msgs_only: true,
+					hold_completions: Some(1),
+					crash: Some(1),
+					crash_after_finish_only: true,
+					// quick: restart from the oldest admissible durable state only
+					crash_choices_max: if th { None } else { Some(1) },
+					early_release: None,
+					..Deviations::default()
+				},
+				k: 3,
+				crash_nodes: vec![1],
+				async_from_start: vec![1],
+				max_disconnects: 0,
+				on_chain: true,
+				slow_user: vec![],
+			});
+		}
 		if which == "C03" {
 			// a second send with the same payment id at every point while the first is pending
 			for (pol, pn) in [(ClaimPolicy::Claim, "claim"), (ClaimPolicy::Fail, "fail")] {
@@ -305,6 +345,9 @@ pub fn to_runner(s: LineScn, which: &'static str) -> Scenario {
 		// a recorded finding lives here: keep exploring past it so that other violations are still seen
 		cfg.branch_below_violations = true;
 		cfg.max_violations = 5000;
+	}
+	if s.name.contains("slowdisk") {
+		cfg.horizon = 3000;
 	}
 	let desc = json!({"check": which, "name": s.name});
 	let name = s.name.clone();
